@@ -24,6 +24,9 @@ import (
 type Row struct {
 	A int64  `db:"a"`
 	B string `db:"b"`
+	// Extra has no db tag: no statement ever writes it.  An element GetAll appends must
+	// carry its zero value, whatever the spare capacity of the caller's slice held.
+	Extra int
 }
 
 // Unrelated is a destination the statements do not use.
@@ -267,7 +270,7 @@ func genL4(r *rng.R) *l4Case {
 	case "iter":
 		n := 1 + r.Intn(8)
 		for i := 0; i < n; i++ {
-			c.Calls = append(c.Calls, r.Pick([]string{"next", "next", "next", "get", "get", "getoutcome", "getniloutcome", "getinvalid", "close"}))
+			c.Calls = append(c.Calls, r.Pick([]string{"next", "next", "next", "get", "get", "getoutcome", "getniloutcome", "getinvalid", "getnone", "close"}))
 		}
 		if r.Chance(2, 3) {
 			c.Calls = append(c.Calls, "close")
@@ -574,7 +577,11 @@ func runL4Case(c *l4Case) (obs *l4Obs) {
 		if c.Dests == "validcap" {
 			// spare capacity: the hidden part of the backing array may be written, the
 			// visible slice must not change on error
-			rows = make([]Row, 1, 8)
+			backing := make([]Row, 8)
+			for i := range backing {
+				backing[i] = Row{A: int64(700 + i), B: "stale", Extra: 99}
+			}
+			rows = backing[:1]
 			rows[0] = Row{A: 100, B: "prior"}
 		}
 		var args []any
@@ -609,6 +616,11 @@ func runL4Case(c *l4Case) (obs *l4Obs) {
 		} else {
 			obs.Prior = len(rows) >= 1 && rows[0] == Row{A: 100, B: "prior"}
 			for _, r := range rows[1:] {
+				if r.Extra != 0 {
+					// not a freshly decoded row: something of the old backing array shows
+					obs.Appended = append(obs.Appended, -2)
+					continue
+				}
 				obs.Appended = append(obs.Appended, r.A)
 			}
 		}
@@ -651,6 +663,8 @@ func runL4Case(c *l4Case) (obs *l4Obs) {
 				obs.Returns = append(obs.Returns, errText(it.Get(oc)))
 			case "getinvalid":
 				obs.Returns = append(obs.Returns, errText(it.Get(&Unrelated{})))
+			case "getnone":
+				obs.Returns = append(obs.Returns, errText(it.Get()))
 			case "close":
 				obs.Returns = append(obs.Returns, errText(it.Close()))
 			}
